@@ -46,10 +46,29 @@ use tachys::view::{Position, PositionState, Render, RenderHtml};
 
 type Rx = Shared<oneshot::Receiver<()>>;
 
+#[derive(Clone, Copy)]
+enum AnyRes {
+    O(OnceResource<u32>),
+    R(Resource<u32>),
+    D(AsyncDerived<u32>),
+}
+impl AnyRes {
+    fn get(&self) -> Option<u32> {
+        match self {
+            AnyRes::O(r) => r.get(),
+            AnyRes::R(r) => r.get(),
+            AnyRes::D(r) => r.get(),
+        }
+    }
+}
+
 #[derive(Default)]
 struct EnvInner {
     chans: Mutex<HashMap<usize, (Option<oneshot::Sender<()>>, Rx)>>,
     sent: Mutex<HashSet<usize>>,
+    /// the server resources of the case, created (under the root owner) before the view is built, as a component
+    /// body does: one per (kind, future)
+    res: Mutex<HashMap<(char, usize), AnyRes>>,
 }
 #[derive(Clone, Default)]
 struct Env(Arc<EnvInner>);
@@ -71,6 +90,40 @@ impl Env {
             let _ = tx.send(());
         }
         self.0.sent.lock().unwrap().insert(k);
+    }
+    fn new_res(&self, kind: char, k: usize) -> AnyRes {
+        let rx = self.rx(k);
+        match kind {
+            'o' => AnyRes::O(OnceResource::new(async move {
+                let _ = rx.await;
+                7u32
+            })),
+            'r' => AnyRes::R(Resource::new(
+                || (),
+                move |_| {
+                    let rx = rx.clone();
+                    async move {
+                        let _ = rx.await;
+                        7u32
+                    }
+                },
+            )),
+            _ => AnyRes::D(AsyncDerived::new(move || {
+                let rx = rx.clone();
+                async move {
+                    let _ = rx.await;
+                    7u32
+                }
+            })),
+        }
+    }
+    fn res(&self, kind: char, k: usize) -> AnyRes {
+        if let Some(r) = self.0.res.lock().unwrap().get(&(kind, k)) {
+            return *r;
+        }
+        let r = self.new_res(kind, k);
+        self.0.res.lock().unwrap().insert((kind, k), r);
+        r
     }
     fn is_sent(&self, k: usize) -> bool {
         self.0.sent.lock().unwrap().contains(&k)
@@ -470,11 +523,8 @@ fn build(v: &V, env: &Env) -> AnyView {
             .into_any()
         }
         V::ResSuspend(k, kids) => {
-            let rx = env.rx(*k);
-            let res = OnceResource::new(async move {
-                let _ = rx.await;
-                7u32
-            });
+            // created where the view is built (with the boundary that waits for it)
+            let AnyRes::O(res) = env.new_res('o', *k) else { unreachable!() };
             let kids = kids.clone();
             let env = env.clone();
             Suspend::new(async move {
@@ -484,41 +534,10 @@ fn build(v: &V, env: &Env) -> AnyView {
             .into_any()
         }
         V::ResRead(kind, k, kids) => {
-            let rx = env.rx(*k);
+            let res = env.res(*kind, *k);
             let kids = kids.clone();
             let env = env.clone();
-            match kind {
-                'o' => {
-                    let res = OnceResource::new(async move {
-                        let _ = rx.await;
-                        7u32
-                    });
-                    (move || res.get().map(|_| build_all(&kids, &env))).into_any()
-                }
-                'r' => {
-                    let res = Resource::new(
-                        || (),
-                        move |_| {
-                            let rx = rx.clone();
-                            async move {
-                                let _ = rx.await;
-                                7u32
-                            }
-                        },
-                    );
-                    (move || res.get().map(|_| build_all(&kids, &env))).into_any()
-                }
-                _ => {
-                    let res = AsyncDerived::new(move || {
-                        let rx = rx.clone();
-                        async move {
-                            let _ = rx.await;
-                            7u32
-                        }
-                    });
-                    (move || res.get().map(|_| build_all(&kids, &env))).into_any()
-                }
-            }
+            (move || res.get().map(|_| build_all(&kids, &env))).into_any()
         }
         V::LocalRead(sync) => {
             let local = LocalResource::new(|| async { 1u8 });
@@ -591,6 +610,51 @@ fn has_eb(v: &V) -> bool {
         V::ResSuspend(_, k) | V::ResRead(_, _, k) => k.iter().any(has_eb),
         V::LocalRead(_) | V::LocalAwait(_) => false,
         V::Suspense { kids, .. } => kids.iter().any(has_eb),
+    }
+}
+
+/// F-C07-6: a server resource read synchronously inside the output of a Suspend / of another read under a boundary
+/// (Rust twin of `noLate`)
+fn has_late_read(c: Ctx, v: &V) -> bool {
+    let nest = |c: Ctx| if c == Ctx::Top { Ctx::Top } else { Ctx::Nested };
+    match v {
+        V::Text(_) | V::LocalRead(_) | V::LocalAwait(_) => false,
+        V::El(_, k) | V::Tup(k) | V::List(k) | V::Eb(k) => k.iter().any(|x| has_late_read(c, x)),
+        V::Suspend(_, k) | V::ResSuspend(_, k) => k.iter().any(|x| has_late_read(nest(c), x)),
+        V::ResRead(_, _, k) => c == Ctx::Nested || k.iter().any(|x| has_late_read(nest(c), x)),
+        V::Suspense { kids, .. } => kids.iter().any(|x| has_late_read(Ctx::Direct, x)),
+        V::Await(_, k) => k.iter().any(|x| has_late_read(Ctx::Nested, x)),
+    }
+}
+
+fn late_reads(c: Ctx, v: &V, out: &mut Vec<usize>) {
+    let nest = |c: Ctx| if c == Ctx::Top { Ctx::Top } else { Ctx::Nested };
+    match v {
+        V::Text(_) | V::LocalRead(_) | V::LocalAwait(_) => {}
+        V::El(_, k) | V::Tup(k) | V::List(k) | V::Eb(k) => k.iter().for_each(|x| late_reads(c, x, out)),
+        V::Suspend(_, k) | V::ResSuspend(_, k) => k.iter().for_each(|x| late_reads(nest(c), x, out)),
+        V::ResRead(_, f, k) => {
+            if c == Ctx::Nested {
+                out.push(*f)
+            }
+            k.iter().for_each(|x| late_reads(nest(c), x, out))
+        }
+        V::Suspense { kids, .. } => kids.iter().for_each(|x| late_reads(Ctx::Direct, x, out)),
+        V::Await(_, k) => k.iter().for_each(|x| late_reads(Ctx::Nested, x, out)),
+    }
+}
+
+fn res_reads(v: &V, out: &mut Vec<(char, usize)>) {
+    match v {
+        V::Text(_) | V::LocalRead(_) | V::LocalAwait(_) => {}
+        V::ResRead(kind, f, k) => {
+            out.push((*kind, *f));
+            k.iter().for_each(|x| res_reads(x, out))
+        }
+        V::El(_, k) | V::Tup(k) | V::List(k) | V::Eb(k) | V::Suspend(_, k) | V::ResSuspend(_, k) | V::Await(_, k) => {
+            k.iter().for_each(|x| res_reads(x, out))
+        }
+        V::Suspense { kids, .. } => kids.iter().for_each(|x| res_reads(x, out)),
     }
 }
 
@@ -812,6 +876,11 @@ fn start(level_b: bool, free: bool, mode: &str, d0: &str, toks: &[&str]) -> Stri
         }
         let root = V::Tup(vs);
         let stream = owner.with(|| {
+            let mut reads = vec![];
+            res_reads(&root, &mut reads);
+            for (kind, k) in reads {
+                let _ = env.res(kind, k);
+            }
             let view = build(&root, &env);
             if ooo {
                 view.to_html_stream_out_of_order()
@@ -822,8 +891,8 @@ fn start(level_b: bool, free: bool, mode: &str, d0: &str, toks: &[&str]) -> Stri
         let reference = new_owner().with(|| build_resolved(&root).to_html());
         let mut f = Facts::default();
         facts(&root, &vec![], &Some(None), &mut f);
-        // no known-finding class is left after fix-c07-2..5: every oracle applies to every view
-        let known_class = false;
+        // F-C07-6 (class sync-read-late): the boundary does not wait for such a read; the per-poll oracles do not apply
+        let known_class = has_late_read(Ctx::Top, &root);
         let mut all_futs = vec![];
         needed_futs(std::slice::from_ref(&root), &mut all_futs);
         Case {
@@ -1177,6 +1246,12 @@ impl Gen {
                         V::ResSuspend(k, (0..n).map(|_| self.view(depth - 1, max_f, Ctx::Nested, allow_known)).collect())
                     }
                     Ctx::Top => V::ResSuspend(k, (0..n).map(|_| self.view(depth - 1, max_f, Ctx::Top, allow_known)).collect()),
+                    Ctx::Nested if allow_known && self.r.chance(1, 2) => {
+                        // F-C07-6: read for the first time while the boundary resolves its children (its output, if
+                        // any, is synchronous: what it would wait for depends on when it is evaluated)
+                        let kind = *self.r.pick(&['o', 'r', 'd']);
+                        V::ResRead(kind, k, (0..n).map(|_| self.view(0, max_f, Ctx::Nested, allow_known)).collect())
+                    }
                     Ctx::Nested => {
                         V::Suspend(k, (0..n).map(|_| self.view(depth - 1, max_f, Ctx::Nested, allow_known)).collect())
                     }
@@ -1452,6 +1527,12 @@ const SHAPES_B: &[&str] = &[
     // resource kinds under boundaries: sync reads (OnceResource, Resource), a Suspend awaiting a resource, a boundary
     // that reads a LocalResource (keeps its fallback), one where the local read wins over a server resource
     "ediv[ Sfb1[ go1[ ei[ t7631 ] ] ep[ t6331 ] ] u2[ eb[ t7632 ] ] Tfb2[ L ep[ t6332 ] ] Sfb3[ gr3[ eem[ t7633 ] ] M ] ]",
+    // F-C07-6 (sync-read-late): a resource read in the `.map` output of another read …
+    "ediv[ Sfb1[ go1[ ei[ t7631 ] gr2[ eem[ t7632 ] ] ] ] eb[ t6131 ] ]",
+    // … in the output of a Suspend, of an <Await>
+    "ediv[ Tfb1[ s1[ ei[ t7631 ] gd2[ eem[ t7632 ] ] ] ] A3[ go2[ eb[ t7633 ] ] ] ]",
+    // … under an inner boundary that is rendered later: what it waits for depends on what had loaded by then
+    "ediv[ Sfb1[ s3[ ep[ t7633 ] Sfb2[ gd1[ ei[ t7631 ] go2[ eem[ t7632 ] ] ] ] ] ] ]",
 ];
 
 fn gen(seed: u64, n: usize, path: &str, tier: &str) -> std::io::Result<()> {
@@ -1527,7 +1608,8 @@ fn gen(seed: u64, n: usize, path: &str, tier: &str) -> std::io::Result<()> {
         }
         let mut futs = vec![];
         futs_of_views(&vs, &mut futs);
-        if futs.is_empty() {
+        // a late synchronous read (F-C07-6) sees whatever has loaded at that very moment: not in free mode
+        if futs.is_empty() || has_late_read(Ctx::Top, &V::Tup(vs.clone())) {
             continue;
         }
         let extra = async_nodes(&vs);
@@ -1572,6 +1654,7 @@ fn gen(seed: u64, n: usize, path: &str, tier: &str) -> std::io::Result<()> {
         let kind = g.r.below(10);
         let max_f = g.r.range(1, 6);
         let mut extra = 0;
+        let mut late_futs: Vec<usize> = vec![];
         let (head, futs, level_b, check, tag) = if kind < 5 {
             let allow_known = g.r.chance(1, 2);
             let n = g.r.range(1, 3);
@@ -1580,7 +1663,9 @@ fn gen(seed: u64, n: usize, path: &str, tier: &str) -> std::io::Result<()> {
             futs_of_views(&vs, &mut futs);
             extra = async_nodes(&vs);
             let known = has_eb(&V::Tup(vs.clone())) || has_nested_suspend(Ctx::Top, &V::Tup(vs.clone()));
-            let tag = if futs.is_empty() { "view~plain" } else if known { "view~repaired-class" } else { "view" };
+            let late = has_late_read(Ctx::Top, &V::Tup(vs.clone()));
+            late_reads(Ctx::Top, &V::Tup(vs.clone()), &mut late_futs);
+            let tag = if futs.is_empty() { "view~plain" } else if late { "view~sync-read-late" } else if known { "view~repaired-class" } else { "view" };
             let mut toks = vec![];
             ser_views(&[V::El("div".into(), vs)], &mut toks);
             (format!("view {mode} D0 {}", toks.join(" ")), futs, true, true, tag)
@@ -1608,15 +1693,30 @@ fn gen(seed: u64, n: usize, path: &str, tier: &str) -> std::io::Result<()> {
             let j = g.r.below(i + 1);
             order.swap(i, j);
         }
+        // F-C07-6: the code evaluates a late read when the output that contains it is first polled, the model when the
+        // boundary resolves; the random schedules complete such a resource before everything else or after the stream
+        // has ended (in between, the outcome depends on which poll_next happened to poll the boundary's future: the
+        // exhaustive shapes cover that)
+        order.retain(|k| !late_futs.contains(k));
+        let (early, lateq): (Vec<usize>, Vec<usize>) = late_futs.iter().partition(|_| g.r.chance(1, 2));
+        let mut order: Vec<usize> = early.iter().copied().chain(order).collect();
+        order.dedup();
         let n0 = if g.r.chance(1, 4) { g.r.below(order.len() + 1) } else { 0 };
+        let n0 = if n0 > 0 { n0.max(early.len()) } else { 0 };
         let done0: Vec<String> = order[..n0].iter().map(|k| k.to_string()).collect();
         let head = head.replace(" D0 ", &format!(" {} ", if done0.is_empty() { "-".to_string() } else { done0.join(",") }));
         let mut sch = vec![];
         let mut i = n0;
         while i < order.len() {
             let take = if g.r.chance(1, 4) { g.r.range(1, 3).min(order.len() - i) } else { 1 };
+            let take = if i == n0 && n0 == 0 { take.max(early.len()).min(order.len() - i) } else { take };
             sch.push((order[i..i + take].to_vec(), g.r.below(4)));
             i += take;
+        }
+        for k in lateq {
+            if !order.contains(&k) {
+                sch.push((vec![k], (futs.len() + extra) * 2 + 4));
+            }
         }
         write_case(&mut f, &format!("r{c}~{tag}~{mode}"), &head, level_b, &sch, &mut runs, (futs.len() + extra) * 2 + 4, check)?;
     }
